@@ -430,14 +430,20 @@ def c09_oracle(w, netlist_idx, before):
     flat = elab.elaborate_flat(n)
     if flat['nonleaf']:
         bad.append('hierarchical instances remain after flatten: %s' % flat['nonleaf'][:3])
-    # the property names a leaf by its slash-joined path: compare the joined strings (a name may itself contain '/')
+    # the property names a leaf by its slash-joined path: compare the joined strings (a name may itself contain '/',
+    # and may be the empty string). A child of the top cell keeps its name or stays unnamed; further down a missing
+    # name has to count as something: the empty string.
     def joined(p):
-        return '/'.join(str(x) for x in p)
+        if len(p) == 1:
+            return p[0]
+        return '/'.join('' if x is None else x for x in p)
     want = dict((joined(p), v) for p, v in before['leaves'].items())
     got = dict((joined(p), v) for p, v in flat['leaves'].items())
+    if len(want) != len(before['leaves']):
+        bad.append('two leaf paths of the design have the same slash-joined name (generator)')
     if want != got:
         bad.append('leaf instances after flatten differ from the leaf occurrences before: missing %s extra %s' % (
-            sorted(set(want) - set(got))[:3], sorted(set(got) - set(want))[:3]))
+            sorted(set(want) - set(got), key=repr)[:3], sorted(set(got) - set(want), key=repr)[:3]))
 
     def norm(nets):
         out = set()
@@ -562,6 +568,7 @@ def run_case(prop, seed, case):
                     fails.append({'step': len(hist) - 1, 'oracle': 'Clone', 'failures': bad[:6]})
             return dict(ops=hist, dumps=dumps, fails=fails, kind=kind)
         n = w.objs[nl]
+        shape = None
         mids = [d for layer in info['layers'][1:-1] for d in layer]
         if prop == 'C08' and mids and rng.random() < 0.4:
             # history before: a port of a cell that is already instanced is widened, so the order in which the
@@ -632,7 +639,7 @@ def run_case(prop, seed, case):
                 do(['setname', str(c), netgen.tok_of_s(w.objs[rng.choice(users)].name + '/q')])
         if prop == 'C09' and len(info['layers']) >= 2:
             # a child of the top cell that instantiates a leaf cell has no name: flatten's `e.name = e.name` must
-            # leave it unnamed and go on (below the top level an unnamed element makes flatten raise TypeError).
+            # leave it unnamed and go on.
             # Own PRNG so that the other choices of the case stay what they were.
             rng_u = random.Random('%d/%s/%d/unnamed' % (seed, prop, case))
             if rng_u.random() < 0.3:
@@ -640,6 +647,42 @@ def run_case(prop, seed, case):
                 cands = [x for (x, ref) in info['children'].get(info['top_def'], []) if ref in leafs and w.objs[x].name is not None]
                 if cands:
                     do(['setname', str(rng_u.choice(cands)), '~'])
+        if prop == 'C09':
+            # names that are the empty string or missing, below the top level: a hierarchical instance called "" is a
+            # path component like any other ("/w" below it, "a//w" further down); a hierarchical instance, a leaf
+            # instance or a cable WITHOUT a name counts as "" in the joined name. One such element per case (own PRNG),
+            # and never next to a sibling whose name is "" or missing, so the joined names stay distinct.
+            rng_e = random.Random('%d/%s/%d/emptyname' % (seed, prop, case))
+            r = rng_e.random()
+            if r < 0.5:
+                hier, inner = [], []   # hierarchical instances below the top instance; (element, siblings) inside their cells
+
+                def walk(d, seen):
+                    for c in d.children:
+                        ref = c.reference
+                        if ref is not None and id(ref) not in seen and (len(ref.children) or len(ref.cables)):
+                            seen.add(id(ref))
+                            hier.append(c)
+                            inner.extend((e, list(ref.children)) for e in ref.children
+                                         if e.reference is not None and not (len(e.reference.children) or len(e.reference.cables)))
+                            inner.extend((e, list(ref.cables)) for e in ref.cables)
+                            walk(ref, seen)
+                walk(w.objs[info['top_def']], set())
+                free = lambda e, sibs: id(e) in w.index and not any(x is not e and x.name in ('', None) for x in sibs)  # noqa
+                hier = [c for c in hier if free(c, list(c.parent.children))]
+                inner = [(e, sibs) for (e, sibs) in inner if free(e, sibs)]
+                if r < 0.2 and hier:
+                    c = rng_e.choice(hier)
+                    shape = 'hierarchical instance named "" (%s)' % ('child of the top' if c.parent is w.objs[info['top_def']] else 'further down')
+                    do(['setname', str(w.index[id(c)]), netgen.tok_of_s('')])
+                elif r < 0.4 and hier:
+                    c = rng_e.choice(hier)
+                    shape = 'hierarchical instance without a name (%s)' % ('child of the top' if c.parent is w.objs[info['top_def']] else 'further down')
+                    do(['setname', str(w.index[id(c)]), '~'])
+                elif inner:
+                    c = rng_e.choice(inner)[0]
+                    shape = '%s without a name inside a hierarchical cell' % ('cable' if isinstance(c, sdn.ir.Cable) else 'leaf instance')
+                    do(['setname', str(w.index[id(c)]), '~'])
         before = elab.elaborate(n)
         out = do(['flatten', str(nl), FUEL])
         if out != 'ok':
@@ -651,10 +694,9 @@ def run_case(prop, seed, case):
                 # history after: a cell that was a leaf (a black box) is filled in with an instance of another
                 # leaf cell, so it is no longer a leaf, and the same netlist is flattened again - anything the
                 # transformation remembers about definitions between calls shows here
-                # (not a cell instantiated by an unnamed instance: a hierarchical instance without a name makes
-                #  flatten raise TypeError on `None + "/"`, reported separately)
-                used = [d for d in leaves if any(ref == d for kids in info['children'].values() for (_x, ref) in kids)
-                        and not any(ref == d and w.objs[_x].name is None for kids in info['children'].values() for (_x, ref) in kids)]
+                # (a cell instantiated by an unnamed instance included: that instance is then a hierarchical instance
+                #  without a name)
+                used = [d for d in leaves if any(ref == d for kids in info['children'].values() for (_x, ref) in kids)]
                 if used:
                     d = rng.choice(used)
                     other = rng.choice([x for x in leaves if x != d])
@@ -669,7 +711,7 @@ def run_case(prop, seed, case):
                         bad = c09_oracle(w, nl, before)
             if bad:
                 fails.append({'step': len(hist) - 1, 'oracle': 'Flatten', 'failures': bad[:6]})
-        return dict(ops=hist, dumps=dumps, fails=fails, kind='depth%d' % len(info['layers']))
+        return dict(ops=hist, dumps=dumps, fails=fails, kind='depth%d' % len(info['layers']), shape=shape)
     finally:
         w.close()
 
@@ -753,12 +795,15 @@ def run(prop, tier, seed, replay):
     known = common.load_known_findings(prop)
     kinds = collections.Counter()
     sizes = collections.Counter()
+    shapes = collections.Counter()
     results = []
     for c in range(ncases):
         res = run_case(prop, seed, c)
         res['case'] = c
         results.append(res)
         kinds[res['kind']] += 1
+        if prop == 'C09':
+            shapes[res.get('shape') or 'all names below the top level present and non-empty'] += 1
         sizes[len(res['dumps'][-1].split(' | ')) - 3 if res['dumps'] else 0] += 1
     model = run_model([r['ops'] for r in results])
     n_dis = n_or = n_known = 0
@@ -844,6 +889,7 @@ def run(prop, tier, seed, replay):
         'rule': 'random hierarchical netlists from harness/netgen.py (depth 1-4, shared definitions, pass-through cells, bus ports, unconnected pins), then the transformation; every case has >= 20 ops so all are non-trivial; distinct by hash of the op history',
         'samples': [{'case': r['case'], 'kind': r['kind'], 'last_ops': [' '.join(o) for o in r['ops'][-3:]], 'objects': len(r['dumps'][-1].split(' | ')) - 3} for r in results[:3]],
         'case_kind_histogram': dict(kinds), 'objects_histogram': dict(sorted(sizes.items())),
+        'empty_or_missing_name_histogram': dict(shapes),
         'model_impl_disagreements': n_dis, 'oracle_failures': n_or, 'known_finding_hits': n_known,
         'name_clash_witness': witness,
         'exhaustive': False,
